@@ -16,5 +16,97 @@ CLAIMED = {
     },
 }
 
+CLAIMED['C01'] = {'design_ref': 'DESIGN.md §5 C01',
+ 'note': 'Trusted: Lean kernel (axioms of every listed theorem audited each run ⊆ '
+         'propext/Classical.choice/Quot.sound), the translator of protocol constants, the simulation harness '
+         '(fake UDP sockets, virtual clock, real threads) and the compiled model driver. Modelled rather '
+         'than verified: CPython and stdlib pieces, UDP delivery (script order stands for network order). '
+         'Partial: kernel-level reordering/duplication beyond the script is not modelled.',
+ 'technique': 'Lean 4 proof (reader invariant + prefix-of-ideal by induction over blocks/tries/script) + '
+              'differential correspondence on simulated sockets',
+ 'text': "Lean theorems: for every content, short-read pattern and block size the reader model's blocks "
+         'concatenate to the content with correct framing, independent of read splitting; for every event '
+         'script and configuration (wrap 0/1/None) the DATA packets of the transfer model are a prefix of '
+         'the ideal numbered packet sequence and all of it unless the trace shows an abort; numbering '
+         '1..65535 then the wrap value; without wrap value the sequence stops and an ERROR follows. Tied to '
+         'the code by running the real server on simulated sockets and evaluating the same Lean checker '
+         "(c01Check) on the implementation's trace."}
+
+CLAIMED['C07'] = {'design_ref': 'DESIGN.md §5 C07',
+ 'note': 'Trusted: Lean kernel (axioms of every listed theorem audited each run ⊆ '
+         'propext/Classical.choice/Quot.sound), the translator of protocol constants, the simulation harness '
+         '(fake UDP sockets, virtual clock, real threads) and the compiled model driver. Modelled rather '
+         'than verified: CPython and stdlib pieces, UDP delivery (script order stands for network order). '
+         "How the server probes a stream's size (isinstance/fstat/tell) is differential evidence; the model "
+         "only knows 'size known'.",
+ 'technique': 'Lean 4 proof (decision-logic iff specs, numeral round trip, trace theorems) + differential '
+              'correspondence',
+ 'text': 'Lean theorems: iff-characterisations of blksize/timeout/tsize acceptance incl. str(int(v)) = v for '
+         'every canonical decimal (so timeout is echoed unchanged), the OACK names only options the client '
+         "sent (case-insensitive) in fixed order, the constructor's clamps, block size within [8, max]; for "
+         'every script the first datagram is exactly the prescribed OACK (or no OACK at all), the DATA '
+         'packets use the negotiated block size (C01 theorem), retransmission uses the negotiated interval '
+         'and block 1 follows only ACK 0 (C02 theorem), and tsize equals the bytes delivered by an unaborted '
+         'transfer. Correspondence: option grids × server limits × stream kinds (BytesIO/file at offsets, '
+         'pipe, raw) through the real server.'}
+
+CLAIMED['C08'] = {'design_ref': 'DESIGN.md §5 C08',
+ 'note': 'Trusted: Lean kernel (axioms of every listed theorem audited each run ⊆ '
+         'propext/Classical.choice/Quot.sound), the translator of protocol constants, the simulation harness '
+         '(fake UDP sockets, virtual clock, real threads) and the compiled model driver. Modelled rather '
+         'than verified: CPython and stdlib pieces, UDP delivery (script order stands for network order). ',
+ 'technique': 'Lean 4 proof (stream invariant buf ++ refSkip lastCR rest, induction over reads) + exhaustive '
+              'small-scope correspondence',
+ 'text': 'Lean theorems: one converted read contributes exactly what the whole-buffer reference conversion '
+         'says whatever follows (chunk_ref); hence for every content, every partition into short reads and '
+         'every block size ≥ 1 the concatenated blocks equal the reference conversion (CR LF kept, every '
+         'other CR/LF → CR LF) with octet-mode framing; netascii never acknowledges tsize; whole netascii '
+         'transfers satisfy the C01 prefix/completeness checker. Correspondence: exhaustive {CR,LF,x}^≤n × '
+         'cut sets × block sizes at reader level plus full sessions.'}
+
+CLAIMED['C09'] = {'design_ref': 'DESIGN.md §5 C09',
+ 'note': 'Trusted: Lean kernel (axioms of every listed theorem audited each run ⊆ '
+         'propext/Classical.choice/Quot.sound), the translator of protocol constants, the simulation harness '
+         '(fake UDP sockets, virtual clock, real threads) and the compiled model driver. Modelled rather '
+         'than verified: CPython and stdlib pieces, UDP delivery (script order stands for network order). '
+         "Partial: the HTTP half rests on http.server's parser (not modelled); foreign non-interference is "
+         "proved as 'deadline unchanged' (C02 automaton) rather than as a trace-equality theorem.",
+ 'technique': 'Lean 4 proof (total decoders, trace automaton accepted for all scripts) + differential '
+              'correspondence incl. exhaustive short datagrams',
+ 'text': 'Lean theorems (TFTP half): the decoders are total; any ERROR packet (any code, any length) is a '
+         'peer error after which nothing is sent; an invalid packet is the last thing received and is '
+         'answered by exactly one well-formed ERROR; foreign peers get ERROR 5 only; no exception record '
+         'unless the handler/stream raised (c09Check accepted for every script); the request port answers '
+         'every datagram with nothing, one well-formed ERROR, or a transfer; RRQ decoding round-trips and is '
+         'sound w.r.t. the RFC 1350/2347 shape. Correspondence: exhaustive/grammar/mutated datagrams on the '
+         'request port and packets injected into transfers.'}
+
+CLAIMED['C10'] = {'design_ref': 'DESIGN.md §5 C10',
+ 'note': 'Trusted: Lean kernel (axioms of every listed theorem audited each run ⊆ '
+         'propext/Classical.choice/Quot.sound), the translator of protocol constants, the simulation harness '
+         '(fake UDP sockets, virtual clock, real threads) and the compiled model driver. Modelled rather '
+         'than verified: CPython and stdlib pieces, UDP delivery (script order stands for network order). '
+         "'Contexts never mixed between concurrent requests' is true in the model by construction; for the "
+         'code it is differential evidence.',
+ 'technique': 'Lean 4 proof (dispatch decision logic) + differential correspondence with recording handlers',
+ 'text': 'Lean theorems (TFTP half): the handler used is the least index whose can_handle accepts; '
+         'prepare_context/can_handle are called for exactly the handlers up to it in order and handle once; '
+         'FILE_NOT_FOUND iff none accepts; the server address keeps port, flow info and scope of the socket '
+         "and takes the packet's destination host when reported. Correspondence: handler lists with accept "
+         'tables, pktinfo on/off, bind addresses; recorded call arguments compared with the statement.'}
+
+CLAIMED['C20'] = {'design_ref': 'DESIGN.md §5 C20',
+ 'note': 'Trusted: Lean kernel (axioms of every listed theorem audited each run ⊆ '
+         'propext/Classical.choice/Quot.sound), the translator of protocol constants, the simulation harness '
+         '(fake UDP sockets, virtual clock, real threads) and the compiled model driver. Modelled rather '
+         'than verified: CPython and stdlib pieces, UDP delivery (script order stands for network order). '
+         'Partial: OS port release and thread death are observed, not proved; lifecycle (start/stop) '
+         'automata are added separately.',
+ 'technique': 'Lean 4 proof (resource events over all endings) + differential correspondence',
+ 'text': 'Lean theorem (transfer half): every ending of a transfer — completed, client ERROR, invalid '
+         'packet, retries exhausted, counter overflow, handler TftpError/exception, stream read fault — '
+         "closes the socket exactly once as the last action and the handler's file exactly once directly "
+         'before it. Correspondence: all endings through the real transfer threads; thread liveness checked.'}
+
 IN_PROGRESS_REASON = ("not claimed yet: model/theorems/correspondence for this property are still being built in this "
                       "round (see DESIGN.md §9); the technique applies")
